@@ -27,113 +27,8 @@
 (***************************************************************************)
 EXTENDS Naturals, Sequences, FiniteSets, ErrorMap
 
-None == <<"none">>
-IsNone(e) == e[1] = "none"
-
-CelError == Leaf("foreign")     \* a CEL evaluation error is no heimdall kind
-NoBackend == Leaf("config")     \* proxy Finalize without upstream reference
-
-Entries == {"decision", "envoy", "proxy"}
-
-InitState(entry) ==
-  [pc |-> "find", entry |-> entry, rule |-> "unset", subject |-> FALSE, subjectBy |-> 0,
-   started |-> FALSE, ai |-> 0,
-   execErr |-> None, pipeErr |-> None, retErr |-> None, www |-> FALSE,
-   resp |-> "none", hits |-> 0,
-   allOk |-> TRUE, failed |-> FALSE, panicked |-> FALSE]
-
-ToErrPipe(s, e) == [s EXCEPT !.execErr = e, !.pc = "errpipe", !.failed = TRUE]
-
-(* ------------------------------ Step ----------------------------------- *)
-
-StepFind(s, it) ==
-  IF it.result = "none"
-  THEN [s EXCEPT !.rule = "none", !.retErr = Leaf("norule"), !.pc = "translate", !.failed = TRUE]
-  ELSE IF it.slash
-       \* rule_impl.go: returned directly, not through the error pipeline
-       THEN [s EXCEPT !.rule = it.result, !.retErr = Leaf("arg"), !.pc = "translate", !.failed = TRUE]
-       ELSE [s EXCEPT !.rule = it.result, !.pc = "authn"]
-
-StepAuthn(s, it) ==
-  IF it.kind = "exhausted"
-  THEN \* loop ended without success: the last error is reported
-       [s EXCEPT !.pc = "errpipe", !.failed = TRUE]
-  ELSE LET t == [s EXCEPT !.ai = s.ai + 1] IN
-       CASE it.out[1] = "ok"    -> [t EXCEPT !.subject = TRUE, !.subjectBy = t.ai, !.pc = "handlers"]
-         [] it.out[1] = "panic" -> [t EXCEPT !.pc = "panic"]
-         [] it.out[1] = "err"   ->
-              IF Is(it.out[2], "arg") \/ it.fb
-              THEN [t EXCEPT !.started = TRUE, !.execErr = it.out[2]]
-              ELSE ToErrPipe([t EXCEPT !.started = TRUE], it.out[2])
-
-Executes(it) == it.cond \in {"none", "true"}
-
-StepHandler(s, it, nextPc) ==
-  IF it.kind = "exhausted" THEN [s EXCEPT !.pc = nextPc]
-  ELSE CASE it.cond = "false" -> s
-         [] it.cond = "error" ->
-              IF it.coe THEN s ELSE [ToErrPipe(s, CelError) EXCEPT !.allOk = FALSE]
-         [] OTHER ->
-              CASE it.out[1] = "ok"    -> s
-                [] it.out[1] = "panic" -> [s EXCEPT !.pc = "panic"]
-                [] it.out[1] = "err"   ->
-                     IF it.coe THEN s ELSE [ToErrPipe(s, it.out[2]) EXCEPT !.allOk = FALSE]
-
-StepErrPipe(s, it) ==
-  IF it.kind = "exhausted"
-  THEN [s EXCEPT !.retErr = s.execErr, !.pc = "translate"]
-  ELSE CASE it.cond = "false" -> s
-         [] it.cond = "error" -> [s EXCEPT !.retErr = CelError, !.pc = "translate"]
-         [] OTHER ->
-              CASE it.type = "default"  -> [s EXCEPT !.pipeErr = s.execErr, !.pc = "finalize"]
-                [] it.type \in {"www", "wwwr"} ->  \* wwwr: realm configured
-                     [s EXCEPT !.pipeErr = Leaf("authn"), !.www = TRUE, !.pc = "finalize"]
-                [] it.type = "redirect" ->
-                     IF it.out[1] = "ok"
-                     THEN [s EXCEPT !.pipeErr = <<"redir", it.code>>, !.pc = "finalize"]
-                     ELSE [s EXCEPT !.retErr = Leaf("internal"), !.pc = "translate"]
-                [] it.type = "scripted" ->
-                     CASE it.out[1] = "ok"     -> [s EXCEPT !.pipeErr = s.execErr, !.pc = "finalize"]
-                       [] it.out[1] = "seterr" -> [s EXCEPT !.pipeErr = it.out[2], !.pc = "finalize"]
-                       [] it.out[1] = "err"    -> [s EXCEPT !.retErr = it.out[2], !.pc = "translate"]
-                       [] it.out[1] = "panic"  -> [s EXCEPT !.pc = "panic"]
-
-StepFinalize(s, it) ==
-  IF ~IsNone(s.pipeErr)
-  THEN [s EXCEPT !.retErr = s.pipeErr, !.pc = "translate"]
-  ELSE IF s.entry # "proxy"
-       THEN [s EXCEPT !.resp = "positive", !.pc = "done"]
-       ELSE IF s.rule = "default"
-            THEN [s EXCEPT !.retErr = NoBackend, !.pc = "translate"]
-            ELSE IF it.up
-                 THEN [s EXCEPT !.resp = "positive", !.hits = 1, !.pc = "done"]
-                 ELSE [s EXCEPT !.retErr = Leaf("comm"), !.pc = "translate"]
-
-Step(s, it) ==
-  CASE s.pc = "find"       -> StepFind(s, it)
-    [] s.pc = "authn"      -> StepAuthn(s, it)
-    [] s.pc = "handlers"   -> StepHandler(s, it, "finalizers")
-    [] s.pc = "finalizers" -> StepHandler(s, it, "finalize")
-    [] s.pc = "errpipe"    -> StepErrPipe(s, it)
-    [] s.pc = "finalize"   -> StepFinalize(s, it)
-    [] s.pc = "translate"  -> [s EXCEPT !.resp = "negative", !.pc = "done"]
-    [] s.pc = "panic"      -> [s EXCEPT !.panicked = TRUE, !.resp = "negative", !.pc = "done"]
-
-(* --------------------- the safety properties (C01) --------------------- *)
-
-Positive(s) == s.resp = "positive"
-
-Safety(s) ==
-  Positive(s) => /\ s.rule \in {"rule", "default"}
-                 /\ s.subject
-                 /\ s.allOk
-                 /\ ~s.failed
-                 /\ ~s.panicked
-                 /\ IsNone(s.pipeErr)
-
-UpstreamOnlyIfPositive(s) == s.hits > 0 => Positive(s) /\ s.entry = "proxy"
-
-NoSwallow(s) == s.failed => ~Positive(s) /\ s.hits = 0
+(* control state, Step, Safety, UpstreamOnlyIfPositive, NoSwallow: see PipelineCore *)
+INSTANCE PipelineCore
 
 (* C04: the subject stems from the first authenticator that succeeded, and *)
 (* it was reached only through steps that fell back legitimately — stated  *)
@@ -198,8 +93,6 @@ Expected(c, overrides) ==
 (* of error values of the exhaustive run (a parameter of the MC module).   *)
 
 Outcomes(errVals) == {<<"ok">>, <<"panic">>} \cup {<<"err", e>> : e \in errVals}
-Conds == {"none", "true", "false", "error"}
-
 Items(s, errVals) ==
   CASE s.pc = "find" ->
          {[kind |-> "find", result |-> r, slash |-> sl] :
